@@ -1,7 +1,7 @@
 (* C16 Definitions are read with the documented precedence. Round-trip of the grammar
    `|` < concatenation < postfix < `#` < atom (left associative) through the minimal-parentheses
    printer and through any printer with redundant parentheses. *)
-From LexVerif Require Import Base CharClass Regex Parser ParserProofs.
+From LexVerif Require Import Base CharClass Regex Parser ParserProofs Driver DefParser DefParserProofs.
 
 Theorem c16_roundtrip_min : forall r rest,
   eoi_safe' r = true -> stops rest ->
@@ -33,6 +33,12 @@ Theorem c16_fuel_mono : forall fuel fuel' level ts res,
   fuel <= fuel' -> parse_re fuel level ts = Some res -> parse_re fuel' level ts = Some res.
 Proof. exact parse_re_fuel_mono. Qed.
 
+(* the definition-level grammar (rule sets, lets inside and outside rule sets, the four
+   right-hand-side forms, right contexts, the error type, optional comma after a rule set):
+   printing any definition and reading it back gives that definition *)
+Theorem c16_def_roundtrip : forall tc d, forallb ptop_ok d = true -> parse_def (print_def tc d) = Some d.
+Proof. exact def_roundtrip. Qed.
+
 Print Assumptions c16_roundtrip_min.
 Print Assumptions c16_roundtrip_min_top.
 Print Assumptions c16_roundtrip_any.
@@ -40,3 +46,4 @@ Print Assumptions c16_roundtrip_any_top.
 Print Assumptions c16_eoi_free_ok.
 Print Assumptions c16_eoi_tail_ok.
 Print Assumptions c16_fuel_mono.
+Print Assumptions c16_def_roundtrip.
